@@ -553,8 +553,17 @@ impl<'s> Tokenizer<'s> {
         }
         let s = self.advance(str_len + 2);
         Ok(if has_escapes {
+            let unescaped = match unescape(&s[1..s.len() - 1]) {
+                Ok(unescaped) => unescaped,
+                Err(mut err) => {
+                    // the error belongs to this literal, not to the token
+                    // the parser saw last
+                    err.set_filename_and_span(self.filename, self.span(old_loc));
+                    return Err(err);
+                }
+            };
             (
-                Token::String(ok!(unescape(&s[1..s.len() - 1])).into_boxed_str()),
+                Token::String(unescaped.into_boxed_str()),
                 self.span(old_loc),
             )
         } else {
